@@ -24,7 +24,7 @@ fn sym(k: usize, step: usize) -> (Option<Vec<f32>>, Option<f32>) {
             f[9] = 0.02;
             (Some(f), Some(0.5))
         }
-        3 | 5 => (Some(f), Some(0.9)),
+        3 | 5 | 6 | 7 => (Some(f), Some(0.9)),
         _ => (None, None),
     }
 }
@@ -69,6 +69,17 @@ fn run_word(cfg: &TrkCfg, word: &[usize], viol: &mut Vec<Viol>, steps: &mut u64)
         let mut d = p().shift(0.25 * k as f32, 0.125 * k as f32);
         if let (Some(f), Some(q)) = (&f, qual) {
             d = d.feat(f, q);
+        }
+        // symbols 6 / 7: a good feature on a box that is suddenly smaller (area 141) / larger (area 288) than the
+        // object was so far (area 200): the 'collect' area threshold is about the DETECTION's box, whatever the
+        // filter has smoothed it to
+        if *s == 6 || *s == 7 {
+            let f6 = if *s == 6 { 0.84f32 } else { 1.2 };
+            let (cx, cy) = (5.0 + 0.25 * k as f32, 10.0 + 0.125 * k as f32);
+            let mut nd = Det::ltwh(cx - 5.0 * f6, cy - 10.0 * f6, 10.0 * f6, 20.0 * f6);
+            nd.feature = d.feature.clone();
+            nd.quality = d.quality;
+            d = nd;
         }
         // symbol 5: a good feature, but half of the box is covered by another detection of the same frame
         // (exclusively owned share 0.5)
@@ -138,7 +149,7 @@ fn run_word(cfg: &TrkCfg, word: &[usize], viol: &mut Vec<Viol>, steps: &mut u64)
                 (None, _) => false,
                 (Some(_), 0) => true, // the detection that starts a track keeps its feature
                 // the own-area shares are computed when either own-area threshold is configured
-                (Some(n), _) => f32::from_bits(n.0) >= Q_COLLECT && !(*s == 5 && cfg.vis.own_use + cfg.vis.own_collect > 0.0 && 0.5 < cfg.vis.own_collect),
+                (Some(n), _) => f32::from_bits(n.0) >= Q_COLLECT && d.bbox.area() >= cfg.vis.min_area && !(*s == 5 && cfg.vis.own_use + cfg.vis.own_collect > 0.0 && 0.5 < cfg.vis.own_collect),
             };
             let has_new = newcomer.as_ref().map_or(false, |n| now.contains(n));
             // the statement speaks of detections that continue a track; for the one that starts it a
@@ -209,12 +220,13 @@ fn run_word(cfg: &TrkCfg, word: &[usize], viol: &mut Vec<Viol>, steps: &mut u64)
 
 pub fn run(tier: Tier) -> Report {
     let rep = Report::new("C13", tier);
-    rep.set_rule("one continuing (slowly drifting) object plus a distractor; per update a symbol from {quality .1 (below the collect threshold .3), .5, .5 (another vector), .9, no feature}; every word of length <= L (quick 6, thorough 8) and every word of length <= 4 repeated to N updates (quick 60, thorough 300) x visual_max_observations 1..4 (thorough 1..8) x history length {1,3} (thorough 1..10 subset) on VisualSort / BatchVisualSort (galleries + histories) and Sort / BatchSort (histories); plus, with the own-area 'collect' threshold configured alone (.6, .4), together with a 'use' threshold, and off, every word of length <= L-1 containing a sixth symbol (quality .9 but half of the box covered by another detection of the frame: exclusively owned share .5); after every update the gallery and the histories are read from the live store. Non-trivial = word with at least two features.");
+    rep.set_rule("one continuing (slowly drifting) object plus a distractor; per update a symbol from {quality .1 (below the collect threshold .3), .5, .5 (another vector), .9, no feature}; every word of length <= L (quick 6, thorough 8) and every word of length <= 4 repeated to N updates (quick 60, thorough 300) x visual_max_observations 1..4 (thorough 1..8) x history length {1,3} (thorough 1..10 subset) on VisualSort / BatchVisualSort (galleries + histories) and Sort / BatchSort (histories); plus, with the own-area 'collect' threshold configured alone (.6, .4), together with a 'use' threshold, and off, every word of length <= L-1 containing a sixth symbol (quality .9 but half of the box covered by another detection of the frame: exclusively owned share .5); plus, with the area 'collect' threshold at 150 / 250, every word of length <= L-1 over {q .5, q .9, no feature, size jump} containing a detection whose box area jumps across the threshold (141 / 288 against 200 before); after every update the gallery and the histories are read from the live store. Non-trivial = word with at least two features.");
     rep.assume("eviction is demanded only when capacity would be exceeded and allowed whenever the gallery was full before the update (the implementation also evicts when the newcomer carries no feature)");
     let l = tier.pick(6usize, 8usize);
     let unroll = tier.pick(60usize, 300usize);
     let mut cfgs: Vec<TrkCfg> = vec![];
     let mut half_covered: Vec<usize> = vec![];
+    let mut size_jump: Vec<usize> = vec![];
     let maxes: Vec<usize> = tier.pick(vec![1, 2, 3, 4], vec![1, 2, 3, 4, 5, 8]);
     let hists: Vec<usize> = tier.pick(vec![1, 3], vec![1, 2, 4, 10]);
     for &m in &maxes {
@@ -255,6 +267,20 @@ pub fn run(tier: Tier) -> Report {
         half_covered.push(cfgs.len());
         cfgs.push(c);
     }
+    // the area 'collect' threshold with a detection whose size jumps across it (alphabet {q .5, q .9, none, jump})
+    for (min_area, kind) in [(150.0f32, Kind::VisualSort), (250.0, Kind::VisualSort), (150.0, Kind::BatchVisualSort)] {
+        let mut c = TrkCfg::new(kind);
+        c.history = 2;
+        c.max_idle = 1;
+        c.vis.max_obs = 3;
+        c.vis.min_track_len = 2;
+        c.vis.q_collect = Q_COLLECT;
+        c.vis.q_use = 0.2;
+        c.vis.metric = Vis::Euclid(0.5);
+        c.vis.min_area = min_area;
+        size_jump.push(cfgs.len());
+        cfgs.push(c);
+    }
     for &h in &hists {
         for kind in [Kind::Sort, Kind::BatchSort] {
             for pos in [Pos::Iou(0.3), Pos::Maha] {
@@ -277,7 +303,14 @@ pub fn run(tier: Tier) -> Report {
         let visual = cfg.kind.is_visual();
         let mut ws: Vec<Vec<usize>> = vec![];
         // positional-only trackers ignore the symbols: one word per length is enough for the histories
-        if visual && half_covered.contains(&cfg_i) {
+        if visual && size_jump.contains(&cfg_i) {
+            let jump = if cfg.vis.min_area < 200.0 { 6usize } else { 7 };
+            let lmax = if cfg.kind == Kind::BatchVisualSort { l - 2 } else { l - 1 };
+            let map = [1usize, 3, 4, jump];
+            for len in 2..=lmax {
+                ws.extend(words(4, len).into_iter().map(|w| w.iter().map(|x| map[*x]).collect::<Vec<usize>>()).filter(|w| w.contains(&jump)));
+            }
+        } else if visual && half_covered.contains(&cfg_i) {
             let lmax = if cfg.kind == Kind::BatchVisualSort { l - 2 } else { l - 1 };
             for len in 1..=lmax {
                 ws.extend(words(6, len).into_iter().filter(|w| w.contains(&5)));
@@ -320,7 +353,7 @@ pub fn run(tier: Tier) -> Report {
                 Ok((v, st)) => {
                     total_s += st;
                     for (w, key, what) in v {
-                        rep.violation(Violation { key, what, replay: json!({"config":cfg.json(),"word":w,"symbols":"0: q=.1, 1: q=.5, 2: q=.5 (other vector), 3: q=.9, 4: no feature, 5: q=.9 but half covered by another detection"}) });
+                        rep.violation(Violation { key, what, replay: json!({"config":cfg.json(),"word":w,"symbols":"0: q=.1, 1: q=.5, 2: q=.5 (other vector), 3: q=.9, 4: no feature, 5: q=.9 but half covered by another detection, 6 / 7: q=.9 on a box suddenly smaller (area 141) / larger (288) than before (200)"}) });
                     }
                 }
                 Err(e) => rep.violation(Violation { key: format!("{}/panic-or-deadlock", cfg.kind.name()), what: e.chars().take(300).collect(), replay: json!({"config":cfg.json(),"chunk_first_word":ws[ci * chunk]}) }),
